@@ -172,6 +172,18 @@ def enclosing_name(text_lines, line):
     return '?'
 
 
+def def_origin(text_lines, origin, name):
+    """template (or repo file) in which the function `name` of the generated unit is defined"""
+    short = name.split('::')[-1]
+    pat = re.compile(r'\bfn\s+' + re.escape(short) + r'\b')
+    for i, ln in enumerate(text_lines):
+        if pat.search(ln) and not ln.lstrip().startswith('//'):
+            o = origin[i] if i < len(origin) and origin[i] else None
+            if o:
+                return '%s:%s' % (o[0], o[1])
+    return '?'
+
+
 def analyse(u, meta, vr):
     """-> dict(status: pass|fail|undecided, reason, failures: [...], functions: [...], stats)"""
     res = dict(status='pass', reason='', failures=[], functions=[], verified=0, errors=0, smt_ms=0, total_ms=0)
@@ -197,7 +209,8 @@ def analyse(u, meta, vr):
         nm = f['function']
         if nm.startswith(crate + '::'):
             nm = nm[len(crate) + 2:]
-        res['functions'].append(dict(name=nm, mode=f.get('mode:', ''), ms=f.get('time', 0), rlimit=f.get('rlimit', 0), success=f.get('success', False)))
+        res['functions'].append(dict(name=nm, mode=f.get('mode:', ''), ms=f.get('time', 0), rlimit=f.get('rlimit', 0), success=f.get('success', False),
+                                     defined_in=def_origin(text_lines, origin, nm)))
     # diagnostics
     front_end = []
     rlimit_fns = set()
